@@ -638,6 +638,10 @@ type c06Op struct {
 	D     int    `json:"d,omitempty"`     // seconds (ff)
 	Fault string `json:"fault,omitempty"` // GET|SET|DEL armed for this op
 	Node  int    `json:"node,omitempty"`
+	// Nest: reads performed INSIDE the Exec callback (same goroutine, a legal sequential
+	// nesting): "b:<read>" before the callback mutates the database, "a:<read>" after.
+	// <read> = findOne | findByName | getCache (of the row being written) | other (another id).
+	Nest []string `json:"nest,omitempty"`
 }
 
 var (
@@ -677,6 +681,7 @@ type c06Hist struct {
 	// per-op flags for checkRead
 	dbFailedInOp bool
 	corruptInOp  bool
+	writeErr     bool
 }
 
 func (h *c06Hist) desc() string {
@@ -712,14 +717,83 @@ func (h *c06Hist) absorb(log []c06Cmd, what string, indexOp bool, named []string
 		}
 	}
 	if dbChanged {
+		// a named key whose delete was not seen after the mutation is excused (tainted) only if
+		// the delete can have FAILED: outage, injected DEL error, or the call reported an error.
+		// Otherwise nothing is excused: the reads that follow are checked as usual.
+		failed := h.isDown || h.writeErr
+		for _, c := range log {
+			if c.Injected && c.Cmd == "DEL" {
+				failed = true
+			}
+		}
 		for _, k := range named {
-			if !deleted[k] {
+			switch {
+			case deleted[k]:
+			case failed:
 				h.taint[k] = true
 				h.counts["keys_tainted_by_failed_delete"]++
+			default:
+				h.counts["named_keys_not_deleted_after_mutation"]++
 			}
 		}
 	}
 	return false
+}
+
+// nestedRead performs one read inside an Exec callback. Its result is not judged (the
+// write is still in progress); its redis commands go through the TTL oracle.
+func (h *c06Hist) nestedRead(op c06Op, what string) (bad bool) {
+	s := h.sys
+	h.counts["nested_reads_"+what]++
+	switch what {
+	case "findOne":
+		_, _ = s.findOne(op.ID)
+	case "other":
+		_, _ = s.findOne(op.ID%4 + 1)
+	case "getCache":
+		var row c06Row
+		_ = s.cc.GetCache(s.pk(op.ID), &row)
+	case "findByName":
+		name := op.Name
+		if name == "" {
+			cur, ok := h.db.byID(op.ID)
+			if !ok {
+				return false
+			}
+			name = cur.Name
+		}
+		_, _ = s.findByIndex("name", name)
+		log, _ := h.env.take()
+		return h.absorb(log, "nested findByName", true, nil, false)
+	}
+	log, _ := h.env.take()
+	return h.absorb(log, "nested "+what, false, nil, false)
+}
+
+// execWrite runs one Exec-style write: [reads] mutate [reads] inside the callback, naming keys.
+func (h *c06Hist) execWrite(kind string, op c06Op, mutate func(), keys []string) (bad bool) {
+	nestBad := false
+	nest := func(when string) {
+		for _, n := range op.Nest {
+			if strings.HasPrefix(n, when+":") && !nestBad {
+				nestBad = h.nestedRead(op, n[2:])
+			}
+		}
+	}
+	err := h.sys.exec(func() {
+		nest("b")
+		// whatever reached redis before the mutation (e.g. an early delete) is not the delete after the write
+		seg, _ := h.env.take()
+		if h.absorb(seg, kind+" (before the mutation)", false, nil, false) {
+			nestBad = true
+		}
+		mutate()
+		nest("a")
+	}, keys...)
+	if nestBad {
+		return true
+	}
+	return h.afterWrite(kind, err, keys)
 }
 
 // checkRead compares one read with the database. keys: cache keys the answer may come from.
@@ -971,6 +1045,14 @@ func (h *c06Hist) run(r interface {
 			}
 		}
 		switch op.Op {
+		case "insert", "update", "update1", "delete":
+			if r.Intn(3) == 0 {
+				for i, n := 0, 1+r.Intn(3); i < n; i++ {
+					op.Nest = append(op.Nest, []string{"b:", "a:"}[r.Intn(2)]+[]string{"findOne", "findOne", "findByName", "getCache", "other"}[r.Intn(5)])
+				}
+			}
+		}
+		switch op.Op {
 		case "ff", "down", "up", "dbfault", "readNoCache", "execFail", "delCache0":
 			fault = ""
 		}
@@ -1000,8 +1082,7 @@ func (h *c06Hist) run(r interface {
 			row.Ver = nextVer
 			nextVer++
 			keys := []string{s.pk(row.ID)}
-			err := s.exec(func() { h.db.put(row) }, keys...)
-			bad = h.afterWrite("update1", err, keys)
+			bad = h.execWrite("update1", op, func() { h.db.put(row) }, keys)
 		case "updateNoCache", "updateTx":
 			cur, _ := h.db.byID(op.ID)
 			row := c06Row{ID: op.ID, Name: op.Name, Email: op.Email, Ver: nextVer}
@@ -1126,20 +1207,17 @@ func (h *c06Hist) run(r interface {
 			row := c06Row{ID: op.ID, Name: op.Name, Email: op.Email, Ver: nextVer}
 			nextVer++
 			keys := []string{s.pk(row.ID), s.nameKey(row.Name), s.emailKey(row.Email)}
-			err := s.exec(func() { h.db.put(row) }, keys...)
-			bad = h.afterWrite("insert", err, keys)
+			bad = h.execWrite("insert", op, func() { h.db.put(row) }, keys)
 		case "update":
 			cur, _ := h.db.byID(op.ID)
 			row := c06Row{ID: op.ID, Name: op.Name, Email: op.Email, Ver: nextVer}
 			nextVer++
 			keys := c06Uniq(s.pk(row.ID), s.nameKey(cur.Name), s.nameKey(row.Name), s.emailKey(cur.Email), s.emailKey(row.Email))
-			err := s.exec(func() { h.db.put(row) }, keys...)
-			bad = h.afterWrite("update", err, keys)
+			bad = h.execWrite("update", op, func() { h.db.put(row) }, keys)
 		case "delete":
 			cur, _ := h.db.byID(op.ID)
 			keys := []string{s.pk(cur.ID), s.nameKey(cur.Name), s.emailKey(cur.Email)}
-			err := s.exec(func() { h.db.del(cur.ID) }, keys...)
-			bad = h.afterWrite("delete", err, keys)
+			bad = h.execWrite("delete", op, func() { h.db.del(cur.ID) }, keys)
 		case "delCache":
 			keys := []string{s.pk(op.ID), s.nameKey(op.Name)}
 			err := s.cc.DelCache(keys...)
@@ -1230,13 +1308,16 @@ func c06Uniq(ks ...string) []string {
 
 func (h *c06Hist) afterWrite(kind string, err error, keys []string) (bad bool) {
 	log, _ := h.env.take()
+	h.writeErr = err != nil
 	if err != nil {
 		h.counts["write_errors"]++
 	}
 	for _, k := range keys {
 		h.lastW[k] = kind
 	}
-	return h.absorb(log, kind, false, keys, true)
+	bad = h.absorb(log, kind, false, keys, true)
+	h.writeErr = false
+	return bad
 }
 
 func TestVerifC06Coherence(t *testing.T) {
@@ -1607,10 +1688,14 @@ func TestVerifC06Stampede(t *testing.T) {
 		exists := r.Intn(3) != 0
 		gated := r.Intn(2) == 0
 		waves := 1 + r.Intn(3)
+		dbErr := r.Intn(3) == 0 // every database query of the round fails
 		if !m.Only(idx) {
 			continue
 		}
 		db := newC06DB()
+		if dbErr {
+			db.armFail(1 << 30)
+		}
 		row := c06Row{ID: 1, Name: "ann", Email: "a@x", Ver: int64(idx)}
 		if exists {
 			db.put(row)
@@ -1618,7 +1703,7 @@ func TestVerifC06Stampede(t *testing.T) {
 		prefix := fmt.Sprintf("c06s%d:", idx)
 		env.begin(prefix, db)
 		s := c06Build(env, tp, db, prefix)
-		desc := fmt.Sprintf("case=%d;%s", idx, vk.JSON(map[string]any{"topo": tp, "via": via, "exists": exists, "gated": gated, "waves": waves}))
+		desc := fmt.Sprintf("case=%d;%s", idx, vk.JSON(map[string]any{"topo": tp, "via": via, "exists": exists, "gated": gated, "waves": waves, "db_fails": dbErr}))
 		m.Current(desc)
 		var gate chan struct{}
 		entered := make(chan string, 1)
@@ -1627,6 +1712,9 @@ func TestVerifC06Stampede(t *testing.T) {
 			gate = make(chan struct{})
 			db.gate = gate
 		} else {
+			db.jitter = true
+		}
+		if dbErr {
 			db.jitter = true
 		}
 		db.entered = entered
@@ -1701,12 +1789,28 @@ func TestVerifC06Stampede(t *testing.T) {
 		nres := 0
 		bad := false
 		if maxIn > 1 {
-			m.Violate("C06:stampede:concurrent-db-queries:"+via, desc, "%d concurrent database queries for cache key %s (total queries %d, readers %d)", maxIn, slot, db.q(), readers)
+			sig := "C06:stampede:concurrent-db-queries:" + via
+			if dbErr {
+				sig += ":failing-query"
+			}
+			m.Violate(sig, desc, "%d concurrent database queries for cache key %s (total queries %d, readers %d, database failing: %v)", maxIn, slot, db.q(), readers, dbErr)
 			bad = true
+		}
+		if dbErr {
+			m.Count("failing_query_rounds", 1)
 		}
 		for x := range out {
 			nres++
 			if bad {
+				continue
+			}
+			if dbErr {
+				// the database failed for every query: nobody can have got a row, and the failure
+				// must not have been turned into not-found for an existing row
+				if x.err == nil || (exists && errors.Is(x.err, ErrNotFound)) {
+					m.Violate("C06:stampede:wrong-result:"+via+":failing-query", desc, "every database query failed, yet a reader got %+v err=%v", x.row, x.err)
+					bad = true
+				}
 				continue
 			}
 			if exists && (x.err != nil || x.row != row) {
@@ -1716,6 +1820,23 @@ func TestVerifC06Stampede(t *testing.T) {
 			if !exists && !errors.Is(x.err, ErrNotFound) {
 				m.Violate("C06:stampede:wrong-result:"+via, desc, "reader got %+v err=%v, want ErrNotFound", x.row, x.err)
 				bad = true
+			}
+		}
+		if dbErr && !bad {
+			// database healthy again: the failure must not have been remembered
+			db.armFail(0)
+			db.mu.Lock()
+			db.jitter, db.entered = false, nil
+			db.mu.Unlock()
+			var got c06Row
+			var err error
+			if via == "findOne" {
+				got, err = s.findOne(1)
+			} else {
+				got, err = s.findByIndex("name", "ann")
+			}
+			if (exists && (err != nil || got != row)) || (!exists && !errors.Is(err, ErrNotFound)) {
+				m.Violate("C06:stampede:db-error-remembered:"+via, desc, "after a round of failing database queries the next read returned %+v err=%v (row exists: %v)", got, err, exists)
 			}
 		}
 		m.Count("readers_returned", int64(nres))
